@@ -1,6 +1,6 @@
 /-
-  `ProofPositions`, step 3: for sorted targets none of which is an ancestor of another, the
-  (row, offset) algorithm `refPP` computes the canonical proof positions of the specification.
+  `ProofPositions`, step 3: for strictly sorted targets (nested or not) the (row, offset)
+  algorithm `refPP` computes the canonical proof positions of the specification.
   Pure `Nat` / `List` reasoning, no bit vectors.
 -/
 import UtreexoVerif.Proofs.ProofPosRef
@@ -112,6 +112,93 @@ theorem sortPos_ssorted {l : List Pos} (h : l.Nodup) : SSorted (sortPos l) :=
 /-- sorting an already strictly sorted list changes nothing -/
 theorem sortPos_of_ssorted {l : List Pos} (h : SSorted l) : sortPos l = l :=
   eq_of_ssorted (sortPos_ssorted h.nodup) h (fun _ => mem_sortPos)
+
+/-! ### `compactPos ∘ sortPos`: strictly sorted, whatever the list -/
+
+/-- `a` is not after `b` -/
+abbrev PLe (a b : Pos) : Prop := ¬ PLt b a
+
+theorem PLe_iff {a b : Pos} : PLe a b ↔ a.1 < b.1 ∨ (a.1 = b.1 ∧ a.2 ≤ b.2) := by
+  rw [PLe, PLt_iff]; omega
+
+theorem PLt_of_PLe_ne {a b : Pos} (h : PLe a b) (hne : a ≠ b) : PLt a b := by
+  rcases PLt_total a b with h1 | h1 | h1
+  · exact h1
+  · exact absurd h1 hne
+  · exact absurd h1 h
+
+theorem PLt_of_PLt_PLe {a b c : Pos} (h1 : PLt a b) (h2 : PLe b c) : PLt a c := by
+  rw [PLe_iff] at h2; rw [PLt_iff] at *; omega
+
+/-- weakly sorted -/
+abbrev WSorted (l : List Pos) : Prop := l.Pairwise PLe
+
+theorem insertPos_wsorted {x : Pos} : ∀ {l : List Pos}, WSorted l → WSorted (insertPos x l)
+  | [], _ => by simp [insertPos, WSorted]
+  | y :: ys, hl => by
+    have hl' := List.pairwise_cons.1 hl
+    rw [insertPos]
+    split
+    · rename_i hlt
+      refine List.pairwise_cons.2 ⟨?_, hl⟩
+      intro z hz
+      rcases List.mem_cons.1 hz with rfl | hz
+      · exact PLt_asymm hlt
+      · exact PLt_asymm (PLt_of_PLt_PLe hlt (hl'.1 z hz))
+    · rename_i hlt
+      refine List.pairwise_cons.2 ⟨?_, insertPos_wsorted hl'.2⟩
+      intro z hz
+      rcases mem_insertPos.1 hz with rfl | hz
+      · exact hlt
+      · exact hl'.1 z hz
+
+theorem foldl_insertPos_wsorted : ∀ (l acc : List Pos), WSorted acc →
+    WSorted (l.foldl (fun a x => insertPos x a) acc)
+  | [], _, h => h
+  | x :: l, acc, h => by
+    rw [List.foldl_cons]
+    exact foldl_insertPos_wsorted l _ (insertPos_wsorted h)
+
+theorem sortPos_wsorted (l : List Pos) : WSorted (sortPos l) :=
+  foldl_insertPos_wsorted l [] List.Pairwise.nil
+
+theorem compactPosAux_ssorted : ∀ (l : List Pos) (prev : Pos), WSorted (prev :: l) →
+    SSorted (prev :: compactPosAux prev l)
+  | [], _, _ => by simp [compactPosAux, SSorted]
+  | x :: xs, prev, h => by
+    have h1 := List.pairwise_cons.1 h
+    have h2 := List.pairwise_cons.1 h1.2
+    rw [compactPosAux]
+    by_cases e : (x == prev) = true
+    · rw [if_pos e]
+      exact compactPosAux_ssorted xs prev
+        (List.pairwise_cons.2 ⟨fun z hz => h1.1 z (List.mem_cons_of_mem _ hz), h2.2⟩)
+    · rw [if_neg e]
+      have hne : prev ≠ x := fun hc => e (by rw [hc]; simp)
+      have hlt : PLt prev x := PLt_of_PLe_ne (h1.1 x (by simp)) hne
+      have ih := compactPosAux_ssorted xs x h1.2
+      refine List.pairwise_cons.2 ⟨?_, ih⟩
+      intro z hz
+      rcases List.mem_cons.1 ((mem_cons_compactPosAux xs x).1 hz) with rfl | hz
+      · exact hlt
+      · exact PLt_of_PLt_PLe hlt (h2.1 z hz)
+
+theorem compactPos_ssorted {l : List Pos} (h : WSorted l) : SSorted (compactPos l) := by
+  cases l with
+  | nil => exact List.Pairwise.nil
+  | cons x xs => rw [compactPos]; exact compactPosAux_ssorted xs x h
+
+/-- sorting and compacting ANY list yields a strictly sorted list -/
+theorem compact_sortPos_ssorted (l : List Pos) : SSorted (compactPos (sortPos l)) :=
+  compactPos_ssorted (sortPos_wsorted l)
+
+theorem mem_compact_sortPos {y : Pos} {l : List Pos} : y ∈ compactPos (sortPos l) ↔ y ∈ l := by
+  rw [mem_compactPos, mem_sortPos]
+
+/-- a strictly sorted list is a fixed point of compaction -/
+theorem compactPos_of_ssorted {l : List Pos} (h : SSorted l) : compactPos l = l :=
+  eq_of_ssorted (compactPos_ssorted (List.Pairwise.imp (fun hab => PLt_asymm hab) h)) h
+    (fun _ => mem_compactPos)
 
 /-- insertion below a row threshold only touches the low part -/
 theorem insertPos_append_low {k : Nat} {x : Pos} (hx : x.1 < k) :
